@@ -328,6 +328,20 @@ func updateReferences(st storage.Storer, req *packp.UpdateRequests, cmdStatus ma
 			continue
 		}
 
+		// An update or delete is only applied to the value the client
+		// based it on, as upstream's receive-pack does.
+		if exists && cmd.Action() != packp.Create {
+			cur, err := st.Reference(cmd.Name)
+			if err != nil {
+				setStatus(cmdStatus, firstErr, cmd.Name, err)
+				continue
+			}
+			if cur.Type() == plumbing.HashReference && !cur.Hash().Equal(cmd.Old) {
+				setStatus(cmdStatus, firstErr, cmd.Name, ErrUpdateReference)
+				continue
+			}
+		}
+
 		switch cmd.Action() {
 		case packp.Create:
 			if exists {
